@@ -1,6 +1,108 @@
-/- C12 - property theorems (stub: not built yet) -/
+/-
+C12 - No untrusted input or unusual configuration crashes the library; verification errors are
+reported consistently. Property theorems only; the model is in `Model/C12.lean`.
+
+Partial by nature (DESIGN.md C12): the theorems cover notation-go's own guard logic and the
+(outcome, error) discipline of the verification entry points for every configuration; that
+third-party decoders never panic on arbitrary bytes is sampled by the harness, not proved.
+-/
 import NotationModel.Model.C12
+set_option linter.unusedSimpArgs false
+set_option linter.unusedVariables false
 
 namespace NotationModel.C12
+
+/-- **fact obligation**: every nil guard the model relies on is present in the current source -/
+theorem guards_present : sourceGuards.all = true := by decide
+
+/-- **no_panic**: with all guards present no entry point panics, for every configuration
+(OCI-only, blob-only, both, skip / no-match statements, nil plugin manager) and every signature kind -/
+theorem no_panic_of_guards (g : Guards) (hg : g.all = true) (i : Input) : (runWith g i).panicked = false := by
+  simp only [Guards.all, Bool.and_eq_true] at hg
+  obtain ⟨⟨⟨⟨⟨⟨⟨⟨⟨⟨g1, g2⟩, g3⟩, g4⟩, g5⟩, g6⟩, g7⟩, g8⟩, g9⟩, g10⟩, g11⟩ := hg
+  unfold runWith
+  cases i.fuzz <;> simp
+  cases he : i.entry <;> simp
+  all_goals
+    cases ho : i.oci <;> cases hb : i.blob <;> cases hs : i.sig <;> cases hm : i.manager <;>
+      simp [vVerify, vVerifyBlob, skipVerify, nVerify, nVerifyBlob, userMetadata, nilArgs, verifyWithStmt,
+        ho, hb, hs, hm, g1, g2, g3, g4, g5, g6, g7, g8, g9, g10, g11, failNoOutcome, failWith, okWith, panic]
+
+theorem no_panic (i : Input) : (run i).panicked = false := no_panic_of_guards _ guards_present i
+
+/-- each guard is necessary: dropping it makes some configuration panic (the configurations are
+the ones the repository's own suite never exercises) -/
+theorem guards_necessary :
+    let all : Guards := ⟨true, true, true, true, true, true, true, true, true, true, true⟩
+    (runWith { all with skipVerifyDocNil := false }
+      { entry := .nVerify, oci := .missing, blob := .enforce, manager := true, sig := .valid, fuzz := false }).panicked = true ∧
+    (runWith { all with nVerifyBlobContentNil := false }
+      { entry := .nVerifyBlob, oci := .missing, blob := .skip, manager := true, sig := .valid, fuzz := false }).panicked = true ∧
+    (runWith { all with vVerifyDocNil := false }
+      { entry := .vVerify, oci := .missing, blob := .enforce, manager := true, sig := .valid, fuzz := false }).panicked = true ∧
+    (runWith { all with vVerifyBlobDocNil := false }
+      { entry := .vVerifyBlob, oci := .enforce, blob := .missing, manager := true, sig := .valid, fuzz := false }).panicked = true ∧
+    (runWith { all with pluginManagerNil := false }
+      { entry := .vVerify, oci := .enforce, blob := .missing, manager := false, sig := .demandsPlugin, fuzz := false }).panicked = true ∧
+    (runWith { all with userMetadataContentNil := false }
+      { entry := .userMetadata, oci := .skip, blob := .missing, manager := true, sig := .valid, fuzz := false }).panicked = true ∧
+    (runWith { all with nVerifyVerifierNil := false }
+      { entry := .nilArgs, oci := .enforce, blob := .enforce, manager := true, sig := .valid, fuzz := false }).panicked = true := by
+  decide
+
+/-- **err_consistency**, verifier level: no error means an outcome without error; a failure after
+policy selection comes with an outcome whose error is set -/
+theorem err_consistency (i : Input) (hf : i.fuzz = false) (he : i.entry = .vVerify ∨ i.entry = .vVerifyBlob) :
+    ((run i).err = false → ∃ oc, (run i).outcome = some oc ∧ oc.hasError = false) ∧
+    (policySelected i = true → (run i).err = true → ∃ oc, (run i).outcome = some oc ∧ oc.hasError = true) := by
+  have hg := guards_present
+  simp only [Guards.all, Bool.and_eq_true] at hg
+  obtain ⟨⟨⟨⟨⟨⟨⟨⟨⟨⟨g1, g2⟩, g3⟩, g4⟩, g5⟩, g6⟩, g7⟩, g8⟩, g9⟩, g10⟩, g11⟩ := hg
+  unfold run runWith policySelected
+  rcases he with he | he <;> simp only [hf, he, Bool.false_eq_true, if_false]
+  all_goals
+    cases ho : i.oci <;> cases hb : i.blob <;> cases hs : i.sig <;> cases hm : i.manager <;>
+      simp [vVerify, vVerifyBlob, verifyWithStmt, ho, hb, hs, hm, g9, g10, g11, failNoOutcome, failWith, okWith, panic]
+
+/-- the wrappers never report success without an outcome that is free of error -/
+theorem wrapper_success_has_clean_outcome (i : Input) (hf : i.fuzz = false)
+    (he : i.entry = .nVerify ∨ i.entry = .nVerifyBlob) (hok : (run i).err = false) :
+    ∃ oc, (run i).outcome = some oc ∧ oc.hasError = false := by
+  have hg := guards_present
+  simp only [Guards.all, Bool.and_eq_true] at hg
+  obtain ⟨⟨⟨⟨⟨⟨⟨⟨⟨⟨g1, g2⟩, g3⟩, g4⟩, g5⟩, g6⟩, g7⟩, g8⟩, g9⟩, g10⟩, g11⟩ := hg
+  revert hok
+  unfold run runWith
+  rcases he with he | he <;> simp only [hf, he, Bool.false_eq_true, if_false]
+  all_goals
+    cases ho : i.oci <;> cases hb : i.blob <;> cases hs : i.sig <;> cases hm : i.manager <;>
+      simp [vVerify, vVerifyBlob, skipVerify, nVerify, nVerifyBlob, verifyWithStmt, ho, hb, hs, hm,
+        g3, g6, g8, g9, g10, g11, failNoOutcome, failWith, okWith, panic]
+
+/-- **C12 (modelled part)**: every clause of `Holds` is true of the model's behaviour -/
+theorem model_holds (i : Input) : Holds i (run i) = true := by
+  have hg := guards_present
+  simp only [Guards.all, Bool.and_eq_true] at hg
+  obtain ⟨⟨⟨⟨⟨⟨⟨⟨⟨⟨g1, g2⟩, g3⟩, g4⟩, g5⟩, g6⟩, g7⟩, g8⟩, g9⟩, g10⟩, g11⟩ := hg
+  unfold Holds clauses run runWith policySelected
+  cases hf : i.fuzz
+  · cases he : i.entry <;> simp only [Bool.false_eq_true, if_false]
+    all_goals
+      cases ho : i.oci <;> cases hb : i.blob <;> cases hs : i.sig <;> cases hm : i.manager <;>
+        simp [Clauses.holds, vVerify, vVerifyBlob, skipVerify, nVerify, nVerifyBlob, userMetadata, nilArgs,
+          verifyWithStmt, ho, hb, hs, hm, g1, g2, g3, g4, g5, g6, g7, g8, g9, g10, g11, failNoOutcome,
+          failWith, okWith, panic]
+  · simp [Clauses.holds]
+
+/-- non-vacuity: the two configurations that panicked before the repairs are now plain results -/
+example : run { entry := .nVerifyBlob, oci := .missing, blob := .skip, manager := true, sig := .valid, fuzz := false } =
+    okWith false := by decide
+example : run { entry := .nVerify, oci := .missing, blob := .enforce, manager := true, sig := .valid, fuzz := false } =
+    failNoOutcome := by decide
+/-- `Holds` refutes a panic and an inconsistent pair -/
+example : Holds { entry := .vVerify, oci := .enforce, blob := .missing, manager := true, sig := .garbage, fuzz := false }
+    { panicked := false, err := true, outcome := none, consistent := true } = false := by decide
+example : Holds { entry := .nVerify, oci := .missing, blob := .enforce, manager := true, sig := .valid, fuzz := false }
+    { panicked := true, err := false, outcome := none, consistent := false } = false := by decide
 
 end NotationModel.C12
